@@ -70,10 +70,11 @@ def run_case(k, cuda=False, **over):
                           a_ctrl=k.a_ctrl, cuda=cuda)
 
 
-def campaign(ck, n, oracle, gen_kw=None, coq_lanes=1, label='WaveSim', coq_every=1, stress_every=0):
+def campaign(ck, n, oracle, gen_kw=None, coq_lanes=1, label='WaveSim', coq_every=1, stress_every=0, line_level=False):
     """oracle(k, w) -> None | failure text.  Returns (fails, mismatching metas)."""
     rng = random.Random(ck.seed * 7919 + sum(map(ord, ck.pid)))
     fails, coq_cases, meta = [], [], []
+    line_cases, line_meta = [], []
     stats = {'overflowing_waveforms': 0, 'waveforms': 0, 'finite_transitions': 0}
     for i in range(n):
         kw = dict(gen_kw or {})
@@ -102,6 +103,9 @@ def campaign(ck, n, oracle, gen_kw=None, coq_lanes=1, label='WaveSim', coq_every
             for lane in range(min(coq_lanes, k.sims)):
                 coq_cases.append(wc.coq_case(k.c, k.caps, k.reuse, k.strip, k.delays, w, lane, k.s0, k.s1, k.s2, k.extra, k.tcap, a_ctrl=k.a_ctrl))
                 meta.append(describe(k))
+                if line_level and not k.strip:
+                    line_cases.append(wc.coq_line_case(k.c, k.caps, k.reuse, k.strip, k.delays, w, lane, k.s0, k.s1, k.s2, k.extra))
+                    line_meta.append(describe(k))
         if i < 2:
             ck.sample({'nodes': len(k.c.nodes), 'lines': len(k.c.lines), 'delay_style': k.style, 'c_caps': str(k.caps)[:40],
                        'sims': k.sims, 'c_reuse': k.reuse, 'capture_time': k.tcap,
@@ -124,7 +128,35 @@ def campaign(ck, n, oracle, gen_kw=None, coq_lanes=1, label='WaveSim', coq_every
              'Model/WaveSimModel.v; exact comparison of the whole waveform memory on generated circuits)',
              'IEEE float32/float64 arithmetic of the pure-Python kernels is exact on the integer grid |t| < 2^24 and the sentinels '
              '-2^127, 2^127, 1.1*2^127 absorb finite delays (extended-integer model of time); off-grid rounding is not modelled')
-    return fails, [meta[j] for j in mism]
+    line_mism = line_level_eval(ck, line_cases, line_meta) if line_level else []
+    return fails, [meta[j] for j in mism] + line_mism
+
+
+def line_level_eval(ck, line_cases, line_meta):
+    """Evaluates the line-level semantics (wexec, wacc, regions_ok_b) on the rendered cases; returns the metas of disagreeing cases."""
+    chunks = [line_cases[i:i + 12] for i in range(0, len(line_cases), 12)]
+    outs = ck.coq_eval_many('wl', [wc.line_cases_file(ch) for ch in chunks], jobs=12)
+    bad, allok = {}, True
+    for ci, (ok, out) in enumerate(outs):
+        codes = cg.parse_nat_list(out) if ok else None
+        if codes is None:
+            allok = False
+            ck.obligation('line-level evaluation (wexec / wacc) ran', False, 'correspondence', out[-800:])
+            continue
+        for code in codes:
+            bad[ci * 12 + code // 32] = code % 32
+    nre = sum(1 for m in line_meta if not m['c_reuse'])
+    for j, what in enumerate(wc.LINE_CHECKS):
+        hit = [i for i, code in bad.items() if code >> j & 1]
+        ck.obligation(f'{what}: {nre if j in (2, 3) else len(line_cases)} lanes', allok and not hit, 'correspondence', f'failing cases {hit[:10]}')
+    ck.trust('line-level semantics (Model/WaveOps.v wexec, Model/WaveAcc.v wacc / ovf_reach) is tied to the code by evaluation on the '
+             'memory the implementation produced (every tracked region, abuf) and by C03_flat_refines + regions_ok_b per case')
+    out = []
+    for i in sorted(bad):
+        m = dict(line_meta[i])
+        m['line_level_failed'] = [wc.LINE_CHECKS[j] for j in range(len(wc.LINE_CHECKS)) if bad[i] >> j & 1]
+        out.append(m)
+    return out
 
 
 def report(ck, fails, mism, prefix, component):
@@ -132,5 +164,10 @@ def report(ck, fails, mism, prefix, component):
         ck.fail(f'{prefix}', f'{component}: ' + what, {'component': component, 'input': desc, 'actual': what})
     if not fails:
         for m in mism[:3]:
+            if 'line_level_failed' in m:
+                ck.fail('line-level-disagrees', 'line-level semantics and implementation disagree: ' + '; '.join(m['line_level_failed']),
+                        {'component': 'Model/WaveOps.v, Model/WaveAcc.v', 'input': m, 'broken': ['correspondence line level (wexec / wacc)']},
+                        found_input=False)
+                continue
             ck.fail('model-disagrees', 'Coq model and implementation disagree', {'component': 'Model/WaveSimModel.v', 'input': m,
                                                                                  'broken': ['correspondence WaveSim']}, found_input=False)
